@@ -161,6 +161,7 @@ type Scheduler struct {
 
 // NewScheduler creates a scheduler whose choices are answered by c.
 func NewScheduler(c Chooser) *Scheduler {
+	epoch++
 	return &Scheduler{choose: c, yield: make(chan struct{}), shadows: map[uintptr]*shadow{}, MaxSteps: 100000}
 }
 
@@ -195,7 +196,9 @@ func (s *Scheduler) enabled(t *thread) bool {
 		}
 		return !t.prw.wheld && t.prw.readers == 0
 	case opRLock:
-		return !t.prw.wheld
+		// like the real RWMutex: once a writer has called Lock, new readers wait behind it (which is what
+		// makes recursive read locking a deadlock when a writer arrives in between)
+		return !t.prw.wheld && t.prw.wwait == 0
 	case opRecv:
 		return len(t.pch.q) > 0 || t.pch.closed
 	}
@@ -362,10 +365,21 @@ func (c *Chan) Recv() (any, bool) {
 
 // ---------------------------------------------------------------- Mutex / RWMutex
 
+// epoch counts schedulers: lock state (holder flags, release clocks) left behind in a package-level mutex by an
+// earlier execution — in particular by one that ended in a deadlock — must not leak into the next one.
+var epoch int
+
 type Mutex struct {
 	real realsync.Mutex
 	held bool
 	rel  vc
+	ep   int
+}
+
+func (m *Mutex) fresh() {
+	if m.ep != epoch {
+		m.ep, m.held, m.rel = epoch, false, nil
+	}
 }
 
 func (m *Mutex) Lock() {
@@ -374,6 +388,7 @@ func (m *Mutex) Lock() {
 		m.real.Lock()
 		return
 	}
+	m.fresh()
 	s.point(opLock, m, nil, "Mutex.Lock")
 	m.held = true
 	s.cur.vc.join(m.rel)
@@ -385,6 +400,7 @@ func (m *Mutex) Unlock() {
 		m.real.Unlock()
 		return
 	}
+	m.fresh()
 	t := s.cur
 	m.rel = t.vc.clone()
 	t.vc[t.id]++
@@ -397,6 +413,7 @@ func (m *Mutex) TryLock() bool {
 	if s == nil || s.cur == nil {
 		return m.real.TryLock()
 	}
+	m.fresh()
 	s.point(opOther, nil, nil, "Mutex.TryLock")
 	if m.held {
 		return false
@@ -409,9 +426,17 @@ func (m *Mutex) TryLock() bool {
 type RWMutex struct {
 	real    realsync.RWMutex
 	wheld   bool
+	wwait   int // writers that have announced themselves (called Lock) and not yet acquired
 	readers int
+	ep      int
 	rel     vc // released by writers
 	rrel    vc // released by readers (joined by the next writer)
+}
+
+func (m *RWMutex) fresh() {
+	if m.ep != epoch {
+		m.ep, m.wheld, m.wwait, m.readers, m.rel, m.rrel = epoch, false, 0, 0, nil, nil
+	}
 }
 
 func (m *RWMutex) Lock() {
@@ -420,7 +445,12 @@ func (m *RWMutex) Lock() {
 		m.real.Lock()
 		return
 	}
+	m.fresh()
+	// two steps, as in sync.RWMutex: announce (from here on new readers block), then wait for the readers to drain
+	s.point(opOther, nil, nil, "RWMutex.Lock.announce")
+	m.wwait++
 	s.point(opLock, nil, m, "RWMutex.Lock")
+	m.wwait--
 	m.wheld = true
 	s.cur.vc.join(m.rel)
 	s.cur.vc.join(m.rrel)
@@ -432,6 +462,7 @@ func (m *RWMutex) Unlock() {
 		m.real.Unlock()
 		return
 	}
+	m.fresh()
 	t := s.cur
 	m.rel = t.vc.clone()
 	t.vc[t.id]++
@@ -445,6 +476,7 @@ func (m *RWMutex) RLock() {
 		m.real.RLock()
 		return
 	}
+	m.fresh()
 	s.point(opRLock, nil, m, "RWMutex.RLock")
 	m.readers++
 	s.cur.vc.join(m.rel)
@@ -456,6 +488,7 @@ func (m *RWMutex) RUnlock() {
 		m.real.RUnlock()
 		return
 	}
+	m.fresh()
 	t := s.cur
 	m.rrel.join(t.vc)
 	t.vc[t.id]++
